@@ -357,6 +357,28 @@ def historical_leaf(ts, leaf, age):
     return t.tree_sequence()
 
 
+def merge_sites_per_locus(ts):
+    """Recurrent-mutation decorator: all sites inside one unit locus are merged into a single site, so
+    that sites carry several mutations on DIFFERENT nodes (unrelated branches and parent/child chains)."""
+    t = ts.dump_tables()
+    pos = ts.sites_position
+    loc = np.floor(pos).astype(int)
+    first = {}
+    t.sites.clear()
+    new_site = np.zeros(ts.num_sites, dtype=np.int32)
+    for sid in range(ts.num_sites):
+        l = int(loc[sid])
+        if l not in first:
+            first[l] = t.sites.add_row(float(pos[sid]), "A")
+        new_site[sid] = first[l]
+    t.mutations.site = new_site[ts.mutations_site]
+    t.mutations.time = np.full(t.mutations.num_rows, tskit.UNKNOWN_TIME)
+    t.sort()
+    t.build_index()
+    t.compute_mutation_parents()
+    return t.tree_sequence()
+
+
 def renumber_nodes(ts, how="reverse"):
     """Node-numbering decorator: keep sample ids, renumber the non-sample nodes.
     how = 'reverse' (oldest internal node gets the lowest internal id, as tsinfer does),
